@@ -54,14 +54,25 @@ def main():
             if prop and m["property"] != prop:
                 continue
             sh("git checkout -q -- . && git clean -fdq", cwd=SCR)
-            path = os.path.join(SCR, m["file"])
+            if "patch" in m:
+                rc, out = sh("git apply %s" % os.path.join(ROOT, m["patch"]), cwd=SCR, check=False)
+                if rc != 0:
+                    rows.append((m, "STALE", "patch does not apply"))
+                    bad += 1
+                    print("%-8s STALE (patch does not apply)" % m["id"])
+                    continue
+                m = dict(m, old="", new="")
+            path = os.path.join(SCR, m.get("file", "go.mod"))
             src = open(path).read()
-            if src.count(m["old"]) != 1:
+            if "patch" in m:
+                pass
+            elif src.count(m["old"]) != 1:
                 rows.append((m, "STALE", "anchor text occurs %d times" % src.count(m["old"])))
                 bad += 1
                 print("%-8s STALE (old text occurs %d times)" % (m["id"], src.count(m["old"])))
                 continue
-            src = src.replace(m["old"], m["new"])
+            if "patch" not in m:
+                src = src.replace(m["old"], m["new"])
             if "old2" in m:
                 if src.count(m["old2"]) != 1:
                     rows.append((m, "STALE", "second anchor text occurs %d times" % src.count(m["old2"])))
@@ -114,7 +125,7 @@ def main():
             sh("git -C %s worktree remove --force %s; rm -rf %s %s" % (REPO, SCR, SCR, OUT), check=False)
     if write:
         with open(os.path.join(ROOT, "SELFTEST-benign.md" if benign else "SELFTEST.md"), "w") as f:
-            f.write("# Mutation self-test of the checker\n\nOne small edit per row, applied to a scratch worktree of /repo; the tree still compiles; "
+            f.write(("# Benign-edit self-test of the checker\n\nSemantics-preserving edits; every quick check must stay silent (rows: SILENT).\n\n" if benign else "") + "# Mutation self-test of the checker\n\nOne small edit per row, applied to a scratch worktree of /repo; the tree still compiles; "
                     "the property's quick check must report a VIOLATION of the named rule in the named function.\n"
                     "Produced by `tools/selftest.py --write` (not a registered check).\n\n")
             f.write("| id | property | rule | edit | result | report |\n|---|---|---|---|---|---|\n")
